@@ -26,6 +26,8 @@ DECIDED = ('the specific ways a streaming scanner becomes split-dependent, each 
            'continuation is the exact rest; (h) in iter_markup a chunk-relative position is ordered against a number or '
            'overwritten only through the absolute offset (self.abspos + position): its own sign depends on where the chunk '
            'started.')
+DECIDED_MORE = ('Also: a proper head of the pending CRLFCRLF continuation is cut off before waiting on; a find-based MatchTail tries every candidate and resumes at pos+1; the scanner is fed on every non-raising pass of the part loop.')
+DECIDED = DECIDED + ' ' + DECIDED_MORE
 NOT_DECIDED = ('that these are the *only* sources of split dependence: equality of the markup over all divisions of all bodies is '
                'an equivalence of runtime values (e.g. absolute-offset arithmetic of the first section when the opening '
                'delimiter itself is cut is not decided).')
